@@ -126,13 +126,19 @@ Ltac nth_close :=
         | (f_equal; lia)
         | (symmetry; apply nthN_ge; nth_rw; lia)
         | (apply nthN_ge; nth_rw; lia)
+        | match goal with
+          | |- @nthN ?T ?l ?x = nthN ?l ?y =>
+            destruct (N.le_gt_cases (lenN l) y);
+            [ transitivity (@None T); [apply nthN_ge; lia | symmetry; apply nthN_ge; lia]
+            | f_equal; lia ]
+          end
         | (exfalso; lia) ].
 Ltac case_ltb :=
   repeat match goal with
          | |- context [if ?a <? ?b then _ else _] =>
            destruct (a <? b) eqn:?; cbv iota
          end.
-Ltac list_ext :=
+Ltac list_ext := timeout 120
   apply nthN_ext; intro; unfold spliceN; nth_rw; case_ltb; nth_close.
 
 Section ListFacts.
@@ -164,8 +170,20 @@ Proof. list_ext. Qed.
 Lemma dropN_takeN {A} a b (l : list A) : dropN a (takeN b l) = takeN (b - a) (dropN a l).
 Proof. list_ext. Qed.
 
+Lemma takeN_app {A} n (l1 l2 : list A) :
+  takeN n (l1 ++ l2) = takeN n l1 ++ takeN (n - lenN l1) l2.
+Proof. list_ext. Qed.
+
+Lemma dropN_app {A} n (l1 l2 : list A) :
+  dropN n (l1 ++ l2) = dropN n l1 ++ dropN (n - lenN l1) l2.
+Proof. list_ext. Qed.
+
 Lemma lenN_spliceN l off bs : lenN (spliceN l off bs) = N.max (lenN l) (off + lenN bs).
 Proof. unfold spliceN. nth_rw. lia. Qed.
+
+Lemma spliceN_le l off bs :
+  off <= lenN l -> spliceN l off bs = takeN off l ++ bs ++ dropN (off + lenN bs) l.
+Proof. intro H. list_ext. Qed.
 
 Lemma spliceN_nil_r l off : off <= lenN l -> spliceN l off [] = l.
 Proof. intro H. list_ext. Qed.
@@ -186,7 +204,22 @@ Proof. intro H. list_ext. Qed.
 Lemma spliceN_spliceN l off F pos W :
   off <= lenN l -> pos <= lenN F ->
   spliceN (spliceN l off F) (off + pos) W = spliceN l off (spliceN F pos W).
-Proof. intros H1 H2. list_ext. Qed.
+Proof.
+  intros H1 H2.
+  rewrite (spliceN_le (spliceN l off F)) by (rewrite lenN_spliceN; lia).
+  rewrite (spliceN_le l off (spliceN F pos W)) by lia.
+  rewrite lenN_spliceN.
+  rewrite (spliceN_le F pos W) by lia.
+  rewrite (spliceN_le l off F) by lia.
+  assert (HP : lenN (takeN off l) = off) by (rewrite lenN_takeN; lia).
+  rewrite takeN_app, HP. rewrite (takeN_all (off + pos)) by lia.
+  replace (off + pos - off) with pos by lia.
+  rewrite takeN_app. replace (pos - lenN F) with 0 by lia.
+  rewrite ?takeN_0, ?app_nil_r.
+  rewrite dropN_app, HP. rewrite (dropN_all (off + pos + lenN W) (takeN off l)) by lia.
+  cbn [app]. rewrite dropN_app, dropN_dropN.
+  rewrite <- !app_assoc. do 3 f_equal. f_equal; f_equal; lia.
+Qed.
 
 Lemma dropN_spliceN l off F pos :
   off <= lenN l -> pos <= lenN F ->
@@ -200,7 +233,7 @@ Lemma spliceN_agree l l' off bs :
   spliceN l' off bs = spliceN l off bs.
 Proof. intros H1 H2. unfold spliceN. rewrite H1, H2. reflexivity. Qed.
 
-Lemma agree_len l l' off n :
+Lemma agree_len (l l' : list byte) off n :
   takeN off l' = takeN off l -> dropN (off + n) l' = dropN (off + n) l ->
   off <= lenN l ->
   off <= lenN l' /\ N.max (lenN l') (off + n) = N.max (lenN l) (off + n).
@@ -211,3 +244,1106 @@ Proof.
 Qed.
 
 End ListFacts.
+
+(* ========================================================================= *)
+(* 2. Buffer-level facts                                                      *)
+(* ========================================================================= *)
+Lemma SBM_pos : 1 <= STREAM_BUFFER_MIN.
+Proof. unfold STREAM_BUFFER_MIN. lia. Qed.
+
+Ltac projs := cbn [h_id h_total h_buf h_off h_dirty b_data b_pos b_cap b_max].
+Ltac projs_in H := cbn [h_id h_total h_buf h_off h_dirty b_data b_pos b_cap b_max] in H.
+Ltac projs_all := cbn [h_id h_total h_buf h_off h_dirty b_data b_pos b_cap b_max] in *.
+
+Definition buf_ok (b : sbuf) : Prop :=
+  b_pos b <= b_cap b /\ b_cap b <= lenN (b_data b) /\
+  STREAM_BUFFER_MIN <= lenN (b_data b) /\ lenN (b_data b) <= b_max b.
+
+Lemma lenN_buf_resize d n : lenN (buf_resize d n) = n.
+Proof. unfold buf_resize. nth_rw. lia. Qed.
+
+Lemma takeN_buf_resize d n c :
+  c <= lenN d -> c <= n -> takeN c (buf_resize d n) = takeN c d.
+Proof. intros H1 H2. unfold buf_resize. list_ext. Qed.
+
+Lemma lenN_buf_filled b : b_cap b <= lenN (b_data b) -> lenN (buf_filled b) = b_cap b.
+Proof. unfold buf_filled. rewrite lenN_takeN. lia. Qed.
+
+Lemma takeN_lenN_takeN {A} m (X : list A) : takeN (lenN (takeN m X)) X = takeN m X.
+Proof. list_ext. Qed.
+
+Lemma grow_for_read_spec b r :
+  STREAM_BUFFER_MIN <= lenN (b_data b) -> lenN (b_data b) <= b_max b ->
+  let b1 := buf_grow_for_read b r in
+  b_pos b1 = b_pos b /\ b_cap b1 = b_cap b /\ b_max b1 = b_max b /\
+  STREAM_BUFFER_MIN <= lenN (b_data b1) /\ lenN (b_data b1) <= b_max b.
+Proof.
+  intros H1 H2. unfold buf_grow_for_read.
+  destruct (r <=? lenN (b_data b)) eqn:E; projs; rewrite ?lenN_buf_resize; lia.
+Qed.
+
+(* the core of write_bytes once there is room at pos *)
+Lemma buf_write_core data pos cap mx (inp : list byte) :
+  pos <= cap -> cap <= lenN data -> pos < lenN data ->
+  STREAM_BUFFER_MIN <= lenN data -> lenN data <= mx ->
+  let w := N.min (lenN inp) (lenN data - pos) in
+  let bf := mkBuf (takeN pos data ++ takeN w inp ++ dropN (pos + w) data)
+                  (pos + w) (N.max cap (pos + w)) mx in
+  buf_ok bf /\ w <= lenN inp /\ (w = 0 <-> inp = []) /\
+  buf_filled bf = spliceN (takeN cap data) pos (takeN w inp).
+Proof.
+  intros H1 H2 H3 H4 H5 w bf.
+  assert (Hw1 : w <= lenN inp) by (subst w; lia).
+  assert (Hw2 : pos + w <= lenN data) by (subst w; lia).
+  assert (Hw3 : w = 0 <-> inp = []).
+  { subst w. split; intro H.
+    - apply lenN_0_nil. lia.
+    - subst inp. cbn [lenN]. lia. }
+  clearbody w. subst bf. unfold buf_ok, buf_filled. projs.
+  assert (HL : lenN (takeN pos data ++ takeN w inp ++ dropN (pos + w) data) = lenN data)
+    by (nth_rw; lia).
+  rewrite HL. repeat split; try lia; try tauto.
+  list_ext.
+Qed.
+
+Lemma buf_write_spec b inp :
+  buf_ok b ->
+  (buf_write_bytes b inp = Ok None /\ b_pos b = lenN (b_data b)) \/
+  (exists bf k, buf_write_bytes b inp = Ok (Some (bf, k)) /\ buf_ok bf /\
+     k <= lenN inp /\ (k = 0 <-> inp = []) /\
+     b_pos bf = b_pos b + k /\ b_cap bf = N.max (b_cap b) (b_pos b + k) /\
+     b_max bf = b_max b /\
+     buf_filled bf = spliceN (buf_filled b) (b_pos b) (takeN k inp)).
+Proof.
+  intros (H1 & H2 & H3 & H4). unfold buf_write_bytes.
+  destruct (lenN (b_data b) <? b_pos b) eqn:E1; [lia|].
+  destruct (lenN (b_data b) <=? b_pos b) eqn:E2.
+  - unfold buf_grow. destruct (b_max b <=? lenN (b_data b)) eqn:E3.
+    + left. split; [reflexivity|lia].
+    + right. unfold STREAM_BUFFER_GROWTH_FACTOR.
+      set (nl := N.min (lenN (b_data b) * 4) (b_max b)).
+      assert (Hnl : lenN (b_data b) < nl /\ nl <= b_max b) by (pose proof SBM_pos; subst nl; lia).
+      clearbody nl. projs.
+      pose proof (buf_write_core (buf_resize (b_data b) nl) (b_pos b) (b_cap b) (b_max b) inp) as HC.
+      rewrite lenN_buf_resize in HC.
+      destruct HC as (K1 & K2 & K3 & K4); try lia.
+      eexists _, _. split; [reflexivity|]. projs. rewrite !lenN_buf_resize.
+      split; [exact K1|]. split; [exact K2|]. split; [exact K3|].
+      split; [reflexivity|]. split; [reflexivity|]. split; [reflexivity|].
+      rewrite K4. unfold buf_filled. rewrite takeN_buf_resize by lia. reflexivity.
+  - right.
+    destruct (buf_write_core (b_data b) (b_pos b) (b_cap b) (b_max b) inp)
+      as (K1 & K2 & K3 & K4); try lia.
+    eexists _, _. split; [reflexivity|]. projs.
+    split; [exact K1|]. split; [exact K2|]. split; [exact K3|].
+    split; [reflexivity|]. split; [reflexivity|]. split; [reflexivity|].
+    exact K4.
+Qed.
+
+(* ========================================================================= *)
+(* 3. The invariant                                                           *)
+(* ========================================================================= *)
+Ltac hfacts H :=
+  pose proof (hi_pos_cap _ _ H); pose proof (hi_cap_len _ _ H); pose proof (hi_min _ _ H);
+  pose proof (hi_max _ _ H); pose proof (hi_off _ _ H); pose proof (hi_len _ _ H);
+  pose proof (hi_win _ _ H).
+
+Lemma HInv_clean V id tot data pos cap mx off :
+  pos <= cap -> cap <= lenN data -> STREAM_BUFFER_MIN <= lenN data -> lenN data <= mx ->
+  lenN V = tot -> off + cap <= tot ->
+  takeN cap data = takeN cap (dropN off V) ->
+  HInv V (mkHandle id tot (mkBuf data pos cap mx) off false).
+Proof.
+  intros. constructor; projs;
+    [lia|lia|lia|lia|lia|lia|lia| intros _; split; [lia|assumption] | discriminate].
+Qed.
+
+Lemma HInv_clean0 V id tot data mx off :
+  STREAM_BUFFER_MIN <= lenN data -> lenN data <= mx -> lenN V = tot -> off <= tot ->
+  HInv V (mkHandle id tot (mkBuf data 0 0 mx) off false).
+Proof. intros. apply HInv_clean; try lia. rewrite !takeN_0. reflexivity. Qed.
+
+Lemma HInv_dirty V id tot data pos cap mx off :
+  pos <= cap -> cap <= lenN data -> STREAM_BUFFER_MIN <= lenN data -> lenN data <= mx ->
+  off <= lenN V -> tot = N.max (lenN V) (off + cap) ->
+  HInv V (mkHandle id tot (mkBuf data pos cap mx) off true).
+Proof.
+  intros. constructor; projs;
+    [lia|lia|lia|lia|lia|lia|lia| discriminate | intros _; assumption].
+Qed.
+
+(* in both states the abstract vector is the store content with the window laid over it *)
+Lemma HInv_splice V h : HInv V h -> spliceN V (h_off h) (buf_filled (h_buf h)) = absV h V.
+Proof.
+  intros HI. unfold absV. destruct (h_dirty h) eqn:Ed; [reflexivity|].
+  destruct (hi_clean _ _ HI Ed) as [HL HW]. hfacts HI.
+  unfold buf_filled. rewrite HW. apply spliceN_same. lia.
+Qed.
+
+Theorem len_is_abs_len V h : HInv V h -> h_total h = lenN (absV h V).
+Proof.
+  intro HI. hfacts HI. unfold absV. destruct (h_dirty h) eqn:Ed.
+  - rewrite lenN_spliceN, lenN_buf_filled by lia. apply (hi_dirty _ _ HI Ed).
+  - symmetry. apply (hi_clean _ _ HI Ed).
+Qed.
+
+Lemma HInv_buf_ok V h : HInv V h -> buf_ok (h_buf h).
+Proof. intro HI. hfacts HI. unfold buf_ok. lia. Qed.
+
+Lemma absV_clean h V : h_dirty h = false -> absV h V = V.
+Proof. intro H. unfold absV. rewrite H. reflexivity. Qed.
+
+
+(* ========================================================================= *)
+(* 4. Refinement of every operation                                           *)
+(* ========================================================================= *)
+Section HandleRefinement.
+Variable St : Type.
+Variable read_data : N -> N -> N -> St -> St * res (list byte).
+Variable write_data : N -> N -> list byte -> St -> St * res unit.
+Variable resize : N -> N -> St -> St * res unit.
+Variable stream_len : N -> St -> St * res N.
+Variable content : St -> N -> list byte -> Prop.
+Hypothesis SC : store_contract St read_data write_data resize stream_len content.
+
+Let SClen := sc_len _ _ _ _ _ _ SC.
+Let SCread := sc_read _ _ _ _ _ _ SC.
+Let SCwrite := sc_write _ _ _ _ _ _ SC.
+Let SCresize := sc_resize _ _ _ _ _ _ SC.
+
+Local Notation Mnew := (handle_new St stream_len).
+Local Notation Mflushc := (flush_changes St write_data stream_len).
+Local Notation Mfill := (h_fill_buf St read_data write_data stream_len).
+Local Notation Mread := (h_read St read_data write_data stream_len).
+Local Notation Mwrite := (h_write St write_data stream_len).
+Local Notation Mseek := (h_seek St write_data stream_len).
+Local Notation Msetlen := (h_set_len St write_data resize stream_len).
+Local Notation Mflush := (h_flush St write_data stream_len).
+Local Notation refines := (op_refines St content).
+
+(* ---- 4.1 handle_new ---- *)
+Theorem hinv_new s id V m :
+  content s id V ->
+  exists h, Mnew id m s = (s, Ok h) /\ HInv V h /\ absV h V = V /\
+            h_position h = 0 /\ h_dirty h = false /\ h_id h = id /\
+            b_max (h_buf h) = N.max m STREAM_BUFFER_MIN.
+Proof.
+  intro HC. unfold handle_new. rewrite (SClen s id V HC).
+  eexists. split; [reflexivity|]. unfold buf_new.
+  split; [|repeat split].
+  apply HInv_clean0; rewrite ?lenN_repeatN; lia.
+Qed.
+
+(* ---- 4.2 flush_changes ---- *)
+Lemma flush_changes_spec s id V h :
+  content s id V -> h_id h = id -> HInv V h ->
+  exists s1 r, Mflushc h s = (s1, r) /\
+    match r with
+    | Ok h1 => h1 = mkHandle (h_id h) (h_total h) (h_buf h) (h_off h) false /\
+               content s1 id (absV h V) /\ HInv (absV h V) h1
+    | Err k => exists V', content s1 id V' /\ HInv V' h /\ absV h V' = absV h V
+    | Panic _ => False
+    | OutOfFuel => False
+    end.
+Proof.
+  intros HC Hid HI. hfacts HI. unfold flush_changes.
+  destruct (h_dirty h) eqn:Ed.
+  - pose proof (hi_dirty _ _ HI Ed) as Htot.
+    assert (HF : lenN (buf_filled (h_buf h)) = b_cap (h_buf h)) by (apply lenN_buf_filled; lia).
+    rewrite Hid.
+    destruct (SCwrite s id V (h_off h) (buf_filled (h_buf h)) HC) as (s1 & r & EW & HW); [lia|].
+    rewrite EW. destruct HW as [[-> HC1] | (k & V' & -> & HC1 & Ht & Hd)].
+    + rewrite (SClen _ _ _ HC1).
+      assert (HL : lenN (spliceN V (h_off h) (buf_filled (h_buf h))) = h_total h)
+        by (rewrite lenN_spliceN; lia).
+      rewrite HL, N.eqb_refl. cbn [negb].
+      eexists _, _. split; [reflexivity|]. cbv beta iota.
+      split; [congruence|]. unfold absV. rewrite Ed. split; [exact HC1|].
+      destruct h as [hid tot [data pos cap mx] off dirty]. projs_all.
+      apply HInv_clean; try lia.
+      rewrite <- HF at 2. rewrite spliceN_window by lia. reflexivity.
+    + eexists _, _. split; [reflexivity|]. cbv beta iota.
+      exists V'. split; [exact HC1|].
+      destruct (agree_len V V' (h_off h) (lenN (buf_filled (h_buf h))) Ht Hd) as [Ha Hb]; [lia|].
+      split.
+      * constructor; lia.
+      * unfold absV. rewrite Ed. apply spliceN_agree; assumption.
+  - eexists _, _. split; [reflexivity|]. cbv beta iota.
+    rewrite (absV_clean h V Ed). split; [|split; assumption].
+    destruct h; projs_all; subst; reflexivity.
+Qed.
+
+Theorem flush_changes_refines s id V h :
+  content s id V -> h_id h = id -> HInv V h ->
+  let '(s', r) := Mflushc h s in
+  match r with
+  | Ok h' => h_id h' = id /\ exists V', content s' id V' /\ HInv V' h' /\
+             absV h' V' = absV h V /\ h_position h' = h_position h /\
+             h_dirty h' = false /\ V' = absV h V
+  | Err k => exists V', content s' id V' /\ HInv V' h /\ absV h V' = absV h V
+  | Panic _ => False
+  | OutOfFuel => False
+  end.
+Proof.
+  intros HC Hid HI.
+  destruct (flush_changes_spec s id V h HC Hid HI) as (s1 & r & EF & HF). rewrite EF.
+  destruct r as [h1|k|p|]; try assumption.
+  destruct HF as (-> & HC1 & HI1). projs. split; [assumption|].
+  exists (absV h V). split; [exact HC1|]. split; [exact HI1|]. repeat split.
+Qed.
+
+(* ---- 4.3 flush ---- *)
+Theorem h_flush_refines s id V h :
+  content s id V -> h_id h = id -> HInv V h ->
+  refines id flush_post V h (Mflush h s).
+Proof.
+  intros HC Hid HI. unfold h_flush.
+  destruct (flush_changes_spec s id V h HC Hid HI) as (s1 & r & EF & HF). rewrite EF.
+  destruct r as [h1|k|p|]; unfold op_refines; cbv beta iota; try contradiction.
+  - destruct HF as (-> & HC1 & HI1). projs. split; [assumption|].
+    exists (absV h V). split; [exact HC1|]. split; [exact HI1|]. split; reflexivity.
+  - split; [assumption|]. destruct HF as (V' & HC1 & HI1 & HA).
+    exists V'. split; [exact HC1|]. split; [exact HI1|]. split; [exact HA|reflexivity].
+Qed.
+
+(* a successful flush makes everything written so far durable, whatever
+   happened to earlier flush attempts (HInv is preserved by failed calls) *)
+Theorem flush_ok_durable s id V h s' h' :
+  content s id V -> h_id h = id -> HInv V h ->
+  Mflush h s = (s', (h', Ok tt)) ->
+  content s' id (absV h V) /\ h_dirty h' = false /\ HInv (absV h V) h'.
+Proof.
+  intros HC Hid HI. unfold h_flush.
+  destruct (flush_changes_spec s id V h HC Hid HI) as (s1 & r & EF & HF). rewrite EF.
+  destruct r as [h1|k|p|]; try contradiction; intros [= <- <-].
+  destruct HF as (-> & HC1 & HI1). split; [exact HC1|]. split; [reflexivity|exact HI1].
+Qed.
+
+(* ---- 4.4 consume ---- *)
+Lemma h_consume_spec V h k :
+  HInv V h -> b_pos (h_buf h) + k <= b_cap (h_buf h) ->
+  exists h', h_consume h k = (h', Ok tt) /\ HInv V h' /\ absV h' V = absV h V /\
+             h_position h' = h_position h + k /\ h_id h' = h_id h.
+Proof.
+  intros HI Hk. hfacts HI. unfold h_consume.
+  destruct (b_cap (h_buf h) <? b_pos (h_buf h) + k) eqn:E; [lia|].
+  eexists. split; [reflexivity|]. unfold h_with_buf. split; [|repeat split].
+  - constructor; projs; try lia.
+    + apply (hi_clean _ _ HI).
+    + apply (hi_dirty _ _ HI).
+  - unfold h_position. projs. lia.
+Qed.
+
+Theorem h_consume_refines s id V h k :
+  content s id V -> h_id h = id -> HInv V h ->
+  b_pos (h_buf h) + k <= b_cap (h_buf h) ->
+  refines id (consume_post k) V h (s, h_consume h k).
+Proof.
+  intros HC Hid HI Hk.
+  destruct (h_consume_spec V h k HI Hk) as (h' & E & HI' & HA & HP & Hid').
+  rewrite E. unfold op_refines. split; [congruence|].
+  exists V. split; [assumption|]. split; [assumption|]. split; assumption.
+Qed.
+
+(* ---- 4.5 fill_buf ---- *)
+Lemma fill_buf_is_remaining h s s1 h1 avail :
+  Mfill h s = (s1, (h1, Ok avail)) -> avail = buf_remaining (h_buf h1).
+Proof.
+  unfold h_fill_buf.
+  destruct (negb _ && _).
+  - destruct (Mflushc h s) as [s' [h'|k|p|]]; try (intros [= ]; fail).
+    destruct (read_data _ _ _ s') as [s2 [got|k|p|]]; try (intros [= ]; fail).
+    destruct (_ <? _); intros [= <- <- <-]. reflexivity.
+  - intros [= <- <- <-]. reflexivity.
+Qed.
+
+Theorem h_fill_buf_refines s id V h :
+  content s id V -> h_id h = id -> HInv V h ->
+  refines id fill_post V h (Mfill h s).
+Proof.
+  intros HC Hid HI. hfacts HI. unfold h_fill_buf.
+  pose proof (len_is_abs_len V h HI) as HLA.
+  destruct (negb (b_pos (h_buf h) <? b_cap (h_buf h)) && (h_position h <? h_total h)) eqn:EC.
+  - (* the buffer is exhausted and the stream is not: write back, then refill *)
+    unfold h_position in EC.
+    destruct (flush_changes_spec s id V h HC Hid HI) as (s1 & r & EF & HF). rewrite EF.
+    destruct r as [h1|k|p|]; unfold op_refines; cbv beta iota; try contradiction.
+    2:{ split; [assumption|]. destruct HF as (V' & HC1 & HI1 & HA).
+        exists V'. split; [exact HC1|]. split; [exact HI1|]. split; [exact HA|reflexivity]. }
+    destruct HF as (-> & HC1 & HI1). projs.
+    set (A := absV h V) in *.
+    set (off := h_off h + b_pos (h_buf h)) in *.
+    set (b0 := mkBuf (b_data (h_buf h)) 0 (b_cap (h_buf h)) (b_max (h_buf h))).
+    destruct (grow_for_read_spec b0 (h_total h - off)) as (G1 & G2 & G3 & G4 & G5);
+      [subst b0; projs; lia | subst b0; projs; lia |].
+    set (b1 := buf_grow_for_read b0 (h_total h - off)) in *. clearbody b1.
+    subst b0. projs_all.
+    destruct (SCread s1 id A off (lenN (b_data b1)) HC1) as (s2 & r & ER & HC2 & HR);
+      [lia | pose proof SBM_pos; lia |].
+    rewrite Hid, ER.
+    destruct HR as [-> | (k & ->)].
+    + set (got := takeN (N.min (lenN (b_data b1)) (lenN A - off)) (dropN off A)).
+      assert (HG : lenN got = N.min (lenN (b_data b1)) (lenN A - off))
+        by (subst got; rewrite lenN_takeN, lenN_dropN; lia).
+      destruct (lenN (b_data b1) <? lenN got) eqn:E3; [lia|].
+      cbv beta iota. projs. split; [reflexivity|].
+      exists A. split; [exact HC2|]. rewrite G3. split.
+      * apply HInv_clean; rewrite ?lenN_app, ?lenN_dropN; try (pose proof SBM_pos; lia).
+        rewrite takeN_app_exact by reflexivity.
+        unfold got. symmetry. apply takeN_lenN_takeN.
+      * unfold fill_post, h_position, buf_remaining. projs.
+        split; [reflexivity|]. split; [fold off; lia|].
+        rewrite dropN_0, takeN_app_exact by reflexivity.
+        split; [unfold got; symmetry; apply takeN_lenN_takeN|].
+        fold off. split; intro HX; exfalso.
+        -- rewrite HX in HG. cbn [lenN] in HG. pose proof SBM_pos. lia.
+        -- lia.
+    + (* the refill failed: the window is emptied at the new offset *)
+      cbv beta iota. unfold buf_clear. projs. split; [reflexivity|].
+      exists A. split; [exact HC2|]. rewrite G3. split.
+      * apply HInv_clean0; lia.
+      * unfold h_position. projs. fold off. split; [reflexivity|lia].
+  - (* serve from the buffer *)
+    unfold op_refines. split; [assumption|].
+    exists V. split; [assumption|]. split; [assumption|].
+    unfold fill_post. split; [reflexivity|]. split; [reflexivity|].
+    set (F := buf_filled (h_buf h)).
+    assert (HF : lenN F = b_cap (h_buf h)) by (apply lenN_buf_filled; lia).
+    assert (HR : lenN (buf_remaining (h_buf h)) = b_cap (h_buf h) - b_pos (h_buf h))
+      by (unfold buf_remaining; rewrite lenN_dropN, lenN_takeN; lia).
+    split.
+    + rewrite HR. unfold buf_remaining, h_position. fold (buf_filled (h_buf h)). fold F.
+      rewrite <- (HInv_splice V h HI). fold F. rewrite <- HF.
+      apply dropN_spliceN; lia.
+    + rewrite <- HLA. unfold h_position in *. split; intro HX.
+      * rewrite HX in HR. cbn [lenN] in HR. lia.
+      * apply lenN_0_nil. lia.
+Qed.
+
+(* ---- 4.6 read ---- *)
+Theorem h_read_refines s id V h n :
+  content s id V -> h_id h = id -> HInv V h ->
+  refines id (read_post n) V h (Mread h n s).
+Proof.
+  intros HC Hid HI. unfold h_read.
+  pose proof (h_fill_buf_refines s id V h HC Hid HI) as HR.
+  destruct (Mfill h s) as [s1 [h1 r]] eqn:EF.
+  destruct r as [avail|k|p|]; try exact HR.
+  pose proof (fill_buf_is_remaining _ _ _ _ _ EF) as Hav.
+  unfold op_refines in HR. destruct HR as (Hid1 & V1 & HC1 & HI1 & HA & HP & HB & HE).
+  hfacts HI1.
+  assert (HLav : lenN avail = b_cap (h_buf h1) - b_pos (h_buf h1))
+    by (subst avail; unfold buf_remaining; rewrite lenN_dropN, lenN_takeN; lia).
+  set (r := takeN n avail).
+  assert (HLr : lenN r = N.min n (lenN avail)) by (subst r; apply lenN_takeN).
+  destruct (h_consume_spec V1 h1 (lenN r) HI1) as (h2 & EC & HI2 & HA2 & HP2 & Hid2); [lia|].
+  rewrite EC. unfold op_refines. split; [congruence|].
+  exists V1. split; [assumption|]. split; [assumption|].
+  unfold read_post. split; [congruence|]. split; [lia|]. split; [|split; [|lia]].
+  - rewrite HLr. rewrite <- takeN_takeN. rewrite <- HB. reflexivity.
+  - rewrite HLr. destruct HE as [HE1 HE2]. split.
+    + intro HX. destruct (N.eq_dec n 0) as [|Hn]; [left; assumption|right].
+      apply HE1. apply lenN_0_nil. lia.
+    + intros [Hn|Hc]; [lia|]. rewrite (HE2 Hc). cbn [lenN]. lia.
+Qed.
+
+(* ---- 4.7 seek ---- *)
+Lemma seek_target_spec h w z :
+  h_position h <= h_total h ->
+  seek_target h w z =
+  match seek_spec (h_total h) (h_position h) w z with
+  | Some p => Ok p
+  | None => Err EInvalidInput
+  end.
+Proof.
+  intro Hp. unfold seek_target, seek_spec. destruct w; cbv zeta;
+  repeat match goal with |- context [if ?c then _ else _] => destruct c eqn:? end;
+  try reflexivity; try (exfalso; lia); try (f_equal; lia).
+Qed.
+
+Lemma seek_spec_range len c w z p : seek_spec len c w z = Some p -> p <= len.
+Proof.
+  unfold seek_spec. cbv zeta.
+  match goal with |- context [if ?c then _ else _] => destruct c eqn:E end;
+  intros [= <-]; lia.
+Qed.
+
+Theorem h_seek_refines s id V h w z :
+  content s id V -> h_id h = id -> HInv V h ->
+  refines id (seek_post w z) V h (Mseek h w z s).
+Proof.
+  intros HC Hid HI. hfacts HI. unfold h_seek.
+  pose proof (len_is_abs_len V h HI) as HLA.
+  assert (Hp : h_position h <= h_total h) by (unfold h_position; lia).
+  rewrite (seek_target_spec h w z Hp).
+  destruct (seek_spec (h_total h) (h_position h) w z) as [np|] eqn:ES.
+  - pose proof (seek_spec_range _ _ _ _ _ ES) as Hnp.
+    destruct ((np <? h_off h) || (h_off h + b_cap (h_buf h) <? np)) eqn:EW.
+    + destruct (flush_changes_spec s id V h HC Hid HI) as (s1 & r & EF & HF). rewrite EF.
+      destruct r as [h1|k|p|]; unfold op_refines; cbv beta iota; try contradiction.
+      * destruct HF as (-> & HC1 & HI1). unfold buf_clear. projs. split; [assumption|].
+        exists (absV h V). split; [exact HC1|]. split.
+        -- apply HInv_clean0; lia.
+        -- split; [rewrite <- HLA; exact ES|]. split; [reflexivity|]. unfold h_position. projs. lia.
+      * split; [assumption|]. destruct HF as (V' & HC1 & HI1 & HA).
+        exists V'. split; [exact HC1|]. split; [exact HI1|]. split; [exact HA|reflexivity].
+    + destruct (lenN (b_data (h_buf h)) <? np - h_off h) eqn:E6; [lia|].
+      unfold op_refines, h_with_buf. projs. split; [assumption|].
+      exists V. split; [assumption|].
+      assert (Hmx : N.max (b_cap (h_buf h)) (np - h_off h) = b_cap (h_buf h)) by lia.
+      rewrite Hmx. split.
+      * constructor; projs; try lia.
+        -- apply (hi_clean _ _ HI).
+        -- apply (hi_dirty _ _ HI).
+      * split; [rewrite <- HLA; exact ES|]. split; [reflexivity|]. unfold h_position. projs. lia.
+  - unfold op_refines. split; [assumption|].
+    exists V. split; [assumption|]. split; [assumption|]. split; reflexivity.
+Qed.
+
+(* an out-of-range seek is refused with InvalidInput before anything is touched *)
+Theorem h_seek_invalid s V h w z :
+  HInv V h ->
+  seek_spec (lenN (absV h V)) (h_position h) w z = None ->
+  Mseek h w z s = (s, (h, Err EInvalidInput)).
+Proof.
+  intros HI HN. hfacts HI. unfold h_seek.
+  assert (Hp : h_position h <= h_total h) by (unfold h_position; lia).
+  rewrite (seek_target_spec h w z Hp), (len_is_abs_len V h HI), HN. reflexivity.
+Qed.
+
+(* ---- 4.8 set_len ---- *)
+Lemma resize_same (l : list byte) n : n = lenN l -> takeN n l ++ repeatN 0 (n - lenN l) = l.
+Proof. intro H. list_ext. Qed.
+
+Lemma lenN_resize (l : list byte) n : lenN (takeN n l ++ repeatN 0 (n - lenN l)) = n.
+Proof. nth_rw. lia. Qed.
+
+Theorem h_set_len_refines s id V h n :
+  content s id V -> h_id h = id -> HInv V h ->
+  refines id (set_len_post n) V h (Msetlen h n s).
+Proof.
+  intros HC Hid HI. subst id. hfacts HI. unfold h_set_len.
+  pose proof (len_is_abs_len V h HI) as HLA.
+  destruct (n =? h_total h) eqn:En.
+  - unfold op_refines. split; [reflexivity|].
+    exists V. split; [assumption|]. split; [assumption|].
+    unfold set_len_post. split.
+    + symmetry. apply resize_same. lia.
+    + unfold h_position. lia.
+  - destruct (flush_changes_spec s _ V h HC eq_refl HI) as (s1 & r & EF & HF). rewrite EF.
+    destruct r as [h1|k|p|]; unfold op_refines; cbv beta iota; try contradiction.
+    2:{ split; [reflexivity|]. destruct HF as (V' & HC1 & HI1 & HA).
+        exists V'. split; [exact HC1|]. split; [exact HI1|]. split; [exact HA|reflexivity]. }
+    destruct HF as (-> & HC1 & HI1). projs.
+    destruct (SCresize s1 _ (absV h V) n HC1) as (s2 & r & ER & HR).
+    rewrite ER. destruct HR as [[-> HC2] | (k & -> & HC2)]; cbv beta iota.
+    + unfold buf_clear. projs. split; [reflexivity|].
+      eexists. split; [exact HC2|]. split.
+      * apply HInv_clean0; rewrite ?lenN_resize; lia.
+      * unfold set_len_post, h_position. projs. split; [reflexivity|lia].
+    + (* the resize failed (atomically): the handle re-reads the length, which is
+         still lenN (absV h V) = h_total h, and restarts with an empty window at
+         the old cursor *)
+      rewrite (SClen s2 _ _ HC2). cbv beta iota zeta. unfold buf_clear. projs.
+      split; [reflexivity|].
+      exists (absV h V). split; [exact HC2|]. split.
+      * apply HInv_clean0; unfold h_position; lia.
+      * unfold h_position. projs. split; [reflexivity|lia].
+Qed.
+
+(* ---- 4.9 write ---- *)
+Lemma write_finish V h inp bf k :
+  HInv V h -> buf_write_bytes (h_buf h) inp = Ok (Some (bf, k)) ->
+  let h' := if 0 <? k
+            then mkHandle (h_id h) (N.max (h_total h) (h_off h + b_cap bf)) bf (h_off h) true
+            else h_with_buf h bf in
+  h_id h' = h_id h /\ HInv V h' /\
+  write_post inp (absV h V) (h_position h) (absV h' V) (h_position h') k.
+Proof.
+  intros HI EB. hfacts HI.
+  destruct (buf_write_spec (h_buf h) inp (HInv_buf_ok _ _ HI))
+    as [[E1 _] | (bf' & k' & E1 & K1 & K2 & K3 & K4 & K5 & K6 & K7)];
+    rewrite E1 in EB; [discriminate|].
+  injection EB as <- <-.
+  destruct K1 as (B1 & B2 & B3 & B4).
+  pose proof (HInv_splice V h HI) as HS.
+  pose proof (len_is_abs_len V h HI) as HLA.
+  set (F := buf_filled (h_buf h)) in *.
+  assert (HF : lenN F = b_cap (h_buf h)) by (apply lenN_buf_filled; lia).
+  unfold write_post, h_position.
+  destruct (0 <? k') eqn:Ek; cbv zeta; projs.
+  - split; [reflexivity|]. split.
+    + destruct bf' as [d' p' c' m']. projs_all. apply HInv_dirty; try lia.
+      destruct (h_dirty h) eqn:Ed.
+      * pose proof (hi_dirty _ _ HI Ed). lia.
+      * pose proof (hi_clean _ _ HI Ed). lia.
+    + split; [exact K3|]. split; [exact K2|]. split; [|lia].
+      unfold absV at 1. projs. rewrite K7.
+      rewrite <- spliceN_spliceN by lia. rewrite HS. reflexivity.
+  - assert (Hk : k' = 0) by lia. assert (Hinp : inp = []) by (apply K3; exact Hk).
+    assert (HFF : buf_filled bf' = F).
+    { rewrite K7, Hk, Hinp. cbn [takeN]. apply spliceN_nil_r. lia. }
+    assert (Hcap : b_cap bf' = b_cap (h_buf h)) by lia.
+    unfold h_with_buf. projs. split; [reflexivity|]. split.
+    + constructor; projs; try lia.
+      * intro Ed. destruct (hi_clean _ _ HI Ed) as [Hc1 Hc2]. split; [exact Hc1|].
+        change (takeN (b_cap bf') (b_data bf')) with (buf_filled bf').
+        rewrite HFF, Hcap. exact Hc2.
+      * intro Ed. rewrite Hcap. apply (hi_dirty _ _ HI Ed).
+    + split; [exact K3|]. split; [exact K2|]. split; [|lia].
+      rewrite Hk, Hinp. cbn [takeN]. rewrite spliceN_nil_r by lia.
+      unfold absV. projs. rewrite HFF. reflexivity.
+Qed.
+
+Theorem h_write_refines s id V h inp :
+  content s id V -> h_id h = id -> HInv V h ->
+  refines id (write_post inp) V h (Mwrite h inp s).
+Proof.
+  intros HC Hid HI. hfacts HI. unfold h_write. cbv beta zeta.
+  destruct (buf_write_spec (h_buf h) inp (HInv_buf_ok _ _ HI))
+    as [[E1 Hfull] | (bf & k & E1 & _)]; rewrite E1.
+  - (* the buffer is full and cannot grow: write it back and restart it at the cursor *)
+    destruct (flush_changes_spec s id V h HC Hid HI) as (s1 & r & EF & HF). rewrite EF.
+    destruct r as [h1|k|p|].
+    3,4: contradiction.
+    2:{ unfold op_refines. split; [assumption|]. destruct HF as (V' & HC1 & HI1 & HA).
+        exists V'. split; [exact HC1|]. split; [exact HI1|]. split; [exact HA|reflexivity]. }
+    destruct HF as (Eh1 & HC1 & HI1).
+    set (h2 := mkHandle (h_id h1) (h_total h1) (buf_clear (h_buf h1))
+                        (h_off h1 + b_pos (h_buf h1)) (h_dirty h1)).
+    pose proof (len_is_abs_len V h HI) as HLA.
+    assert (HI2 : HInv (absV h V) h2).
+    { unfold h2. rewrite Eh1. unfold buf_clear. projs. apply HInv_clean0; lia. }
+    assert (HA2 : absV h2 (absV h V) = absV h V) by (unfold h2; rewrite Eh1; reflexivity).
+    assert (HP2 : h_position h2 = h_position h)
+      by (unfold h2, h_position; rewrite Eh1; unfold buf_clear; projs; lia).
+    assert (Hid2 : h_id h2 = id) by (unfold h2; rewrite Eh1; projs; assumption).
+    destruct (buf_write_spec (h_buf h2) inp (HInv_buf_ok _ _ HI2))
+      as [[E2 Hfull2] | (bf & k & E2 & _)].
+    { exfalso. unfold h2 in Hfull2. rewrite Eh1 in Hfull2. unfold buf_clear in Hfull2.
+      projs_in Hfull2. pose proof SBM_pos. lia. }
+    rewrite E2.
+    pose proof (write_finish (absV h V) h2 inp bf k HI2 E2) as WF. cbv zeta in WF.
+    rewrite HA2, HP2 in WF.
+    destruct (0 <? k); destruct WF as (W1 & W2 & W3); unfold op_refines;
+      (split; [congruence|]); exists (absV h V); (split; [exact HC1|]); split; assumption.
+  - pose proof (write_finish V h inp bf k HI E1) as WF. cbv zeta in WF.
+    destruct (0 <? k); destruct WF as (W1 & W2 & W3); unfold op_refines;
+      (split; [congruence|]); exists V; (split; [exact HC|]); split; assumption.
+Qed.
+
+(* ---- 4.10 progress ---- *)
+Theorem h_read_progress s id V h n s' h' bs :
+  content s id V -> h_id h = id -> HInv V h ->
+  0 < n -> h_position h < lenN (absV h V) ->
+  Mread h n s = (s', (h', Ok bs)) -> 0 < lenN bs.
+Proof.
+  intros HC Hid HI Hn Hc E.
+  pose proof (h_read_refines s id V h n HC Hid HI) as HR. rewrite E in HR.
+  destruct HR as (_ & V' & _ & _ & _ & _ & _ & HZ & _). lia.
+Qed.
+
+Theorem h_write_progress s id V h inp s' h' k :
+  content s id V -> h_id h = id -> HInv V h ->
+  inp <> [] ->
+  Mwrite h inp s = (s', (h', Ok k)) -> 0 < k.
+Proof.
+  intros HC Hid HI Hn E.
+  pose proof (h_write_refines s id V h inp HC Hid HI) as HR. rewrite E in HR.
+  destruct HR as (_ & V' & _ & _ & HZ & _). 
+  destruct (N.eq_dec k 0) as [Hk|Hk]; [|lia]. exfalso. apply Hn. apply HZ. exact Hk.
+Qed.
+
+(* ========================================================================= *)
+(* 5. Traces                                                                  *)
+(* ========================================================================= *)
+Local Notation Mrun_op := (run_op St read_data write_data resize stream_len).
+Local Notation Mrun_ops := (run_ops St read_data write_data resize stream_len).
+Local Notation rel := (handle_rel St content).
+
+(* from a per-operation refinement to a contract step *)
+Lemma refines_step {X} id (post : list byte -> N -> list byte -> N -> X -> Prop)
+      V h s1 h1 (r1 : res X) (f : X -> hout) o A c :
+  refines id post V h (s1, (h1, r1)) ->
+  absV h V = A -> h_position h = c ->
+  fallible o = true ->
+  (forall k w z, r1 = Err k -> o = HSeek w z -> seek_spec (lenN A) c w z = None ->
+                 k = EInvalidInput) ->
+  (forall x A' c', post A c A' c' x -> cstep (A, c) o (f x) (A', c')) ->
+  exists A' c', cstep (A, c) o (out_of f r1) (A', c') /\ rel id s1 h1 (A', c').
+Proof.
+  intros HR HA HP Hf Hseek Hstep. unfold op_refines in HR. destruct HR as (Hid1 & HR).
+  destruct r1 as [x|k|p|]; try contradiction; cbn [out_of].
+  - destruct HR as (V' & HC' & HI' & Hpost). rewrite HA, HP in Hpost.
+    exists (absV h1 V'), (h_position h1). split; [apply Hstep; exact Hpost|].
+    split; [exact Hid1|]. exists V'. repeat (split; [assumption|]). split; reflexivity.
+  - destruct HR as (V' & HC' & HI' & HA' & HP').
+    exists A, c. split.
+    + apply cs_err; [exact Hf|]. intros w z Ho Hn. exact (Hseek k w z eq_refl Ho Hn).
+    + split; [exact Hid1|]. exists V'. split; [assumption|]. split; [assumption|].
+      cbn [fst snd]. split; congruence.
+Qed.
+
+Lemma run_op_refines id s h A c o s' h' r :
+  rel id s h (A, c) -> Mrun_op h o s = (s', (h', r)) ->
+  exists A' c', cstep (A, c) o r (A', c') /\ rel id s' h' (A', c').
+Proof.
+  intros (Hid & V & HC & HI & HA & HP). cbn [fst snd] in HA, HP.
+  destruct o as [n| |k|bs|w z|n| | |]; unfold run_op.
+  - pose proof (h_read_refines s id V h n HC Hid HI) as HR.
+    destruct (Mread h n s) as [s1 [h1 r1]]. intros [= <- <- <-].
+    eapply refines_step; eauto; try discriminate. intros x A' c'. apply cs_read.
+  - pose proof (h_fill_buf_refines s id V h HC Hid HI) as HR.
+    destruct (Mfill h s) as [s1 [h1 r1]]. intros [= <- <- <-].
+    eapply refines_step; eauto; try discriminate. intros x A' c'. apply cs_fill.
+  - hfacts HI. pose proof (len_is_abs_len V h HI) as HLA.
+    destruct (b_pos (h_buf h) + k <=? b_cap (h_buf h)) eqn:Ek.
+    + destruct (h_consume_spec V h k HI) as (h1 & E & HI' & HA' & HP' & Hid'); [lia|].
+      rewrite E. intros [= <- <- <-]. cbn [out_of].
+      exists A, (c + k). split.
+      * apply cs_consume. unfold h_position in HP. subst A. lia.
+      * split; [congruence|]. exists V. split; [assumption|]. split; [assumption|].
+        cbn [fst snd]. split; congruence.
+    + intros [= <- <- <-]. exists A, c. split; [apply cs_consume_skip|].
+      split; [assumption|]. exists V. repeat (split; [assumption|]). assumption.
+  - pose proof (h_write_refines s id V h bs HC Hid HI) as HR.
+    destruct (Mwrite h bs s) as [s1 [h1 r1]]. intros [= <- <- <-].
+    eapply refines_step; eauto; try discriminate. intros x A' c'. apply cs_write.
+  - pose proof (h_seek_refines s id V h w z HC Hid HI) as HR.
+    destruct (Mseek h w z s) as [s1 [h1 r1]] eqn:ES. intros [= <- <- <-].
+    eapply refines_step; eauto.
+    + intros k w' z' -> [= <- <-] HN. subst A c.
+      rewrite (h_seek_invalid s V h w z HI HN) in ES. congruence.
+    + intros x A' c'. apply cs_seek.
+  - pose proof (h_set_len_refines s id V h n HC Hid HI) as HR.
+    destruct (Msetlen h n s) as [s1 [h1 r1]]. intros [= <- <- <-].
+    eapply refines_step; eauto; try discriminate.
+    intros [] A' c'. apply cs_set_len.
+  - pose proof (h_flush_refines s id V h HC Hid HI) as HR.
+    destruct (Mflush h s) as [s1 [h1 r1]]. intros [= <- <- <-].
+    eapply refines_step; eauto; try discriminate.
+    intros [] A' c' [-> ->]. apply cs_flush.
+  - intros [= <- <- <-]. exists A, c. rewrite (len_is_abs_len V h HI), HA.
+    split; [apply cs_len|]. split; [assumption|]. exists V. repeat (split; [assumption|]). assumption.
+  - intros [= <- <- <-]. exists A, c. rewrite HP.
+    split; [apply cs_pos|]. split; [assumption|]. exists V. repeat (split; [assumption|]). assumption.
+Qed.
+
+Lemma run_ops_refines id ops : forall s h A c s' h' outs,
+  rel id s h (A, c) -> Mrun_ops h ops s = (s', (h', outs)) ->
+  exists A' c', cruns (A, c) ops outs (A', c') /\ rel id s' h' (A', c').
+Proof.
+  induction ops as [|o ops IH]; intros s h A c s' h' outs HR; cbn [run_ops].
+  - intros [= <- <- <-]. exists A, c. split; [constructor|assumption].
+  - destruct (Mrun_op h o s) as [s1 [h1 r]] eqn:E1.
+    destruct (Mrun_ops h1 ops s1) as [s2 [h2 rs]] eqn:E2. intros [= <- <- <-].
+    destruct (run_op_refines id s h A c o s1 h1 r HR E1) as (A1 & c1 & HS & HR1).
+    destruct (IH s1 h1 A1 c1 s2 h2 rs HR1 E2) as (A2 & c2 & HRs & HR2).
+    exists A2, c2. split; [econstructor; eassumption|assumption].
+Qed.
+
+Lemma cstep_not_bad st o r st' : cstep st o r st' -> r <> OBad.
+Proof. intros H; inversion H; discriminate. Qed.
+
+Lemma cruns_not_bad st os rs st' : cruns st os rs st' -> ~ In OBad rs.
+Proof.
+  induction 1 as [|st o r st1 os rs st2 HS _ IH]; cbn [In]; [tauto|].
+  intros [E|E]; [exact (cstep_not_bad _ _ _ _ HS E)|exact (IH E)].
+Qed.
+
+(* Every run of every operation sequence on a freshly opened handle, for every
+   configured maximum buffer size m (values below STREAM_BUFFER_MIN included)
+   and every fault pattern the store contract allows, is a run of the Vec +
+   cursor contract from (V, 0); no step panics or runs out of fuel. *)
+Theorem handle_trace_refines m id s V ops :
+  content s id V ->
+  exists h, Mnew id m s = (s, Ok h) /\
+    b_max (h_buf h) = N.max m STREAM_BUFFER_MIN /\
+    forall s' h' outs, Mrun_ops h ops s = (s', (h', outs)) ->
+    exists A' c', cruns (V, 0) ops outs (A', c') /\ rel id s' h' (A', c') /\
+                  h_total h' = lenN A' /\ ~ In OBad outs.
+Proof.
+  intro HC. destruct (hinv_new s id V m HC) as (h & E & HI & HA & HP & Hd & Hid & Hm).
+  exists h. split; [exact E|]. split; [exact Hm|]. intros s' h' outs ER.
+  assert (HR : rel id s h (V, 0)).
+  { split; [exact Hid|]. exists V. repeat (split; [assumption|]). assumption. }
+  destruct (run_ops_refines id ops s h V 0 s' h' outs HR ER) as (A' & c' & HRs & HR').
+  exists A', c'. split; [exact HRs|]. split; [exact HR'|]. split.
+  - destruct HR' as (_ & V' & _ & HI' & HA' & _). cbn [fst] in HA'. rewrite <- HA'.
+    apply len_is_abs_len. exact HI'.
+  - eapply cruns_not_bad. exact HRs.
+Qed.
+
+(* ========================================================================= *)
+(* 6. The looping forms and independence of the buffer size                   *)
+(* ========================================================================= *)
+Local Notation Mread_exact := (read_exact_f St read_data write_data stream_len).
+Local Notation Mread_to_end := (read_to_end_f St read_data write_data stream_len).
+Local Notation Mwrite_all := (write_all_f St write_data stream_len).
+
+Lemma takeN_split {A} a n (X : list A) :
+  a <= n -> takeN a X ++ takeN (n - a) (dropN a X) = takeN n X.
+Proof. intro H. list_ext. Qed.
+
+Lemma takeN_dropN_id {A} a (X : list A) : takeN a X ++ dropN a X = X.
+Proof.
+  destruct (a <=? lenN X) eqn:E.
+  - list_ext.
+  - rewrite takeN_all, dropN_all by lia. apply app_nil_r.
+Qed.
+
+Lemma rel_intro id s h V :
+  content s id V -> h_id h = id -> HInv V h -> rel id s h (absV h V, h_position h).
+Proof. intros. split; [assumption|]. exists V. repeat (split; [assumption|]). split; reflexivity. Qed.
+
+(* read_exact returns exactly the next n bytes of the abstract vector, or fails;
+   it never panics and n units of fuel suffice (each round reads >= 1 byte) *)
+Theorem read_exact_refines id fuel : forall s h A c n acc s' h' r,
+  rel id s h (A, c) -> Mread_exact fuel h n acc s = (s', (h', r)) ->
+  match r with
+  | Ok bs => n <= lenN A - c /\ bs = acc ++ takeN n (dropN c A) /\ rel id s' h' (A, c + n)
+  | Err k => exists c', rel id s' h' (A, c')
+  | Panic _ => False
+  | OutOfFuel => (fuel < N.to_nat n)%nat
+  end.
+Proof.
+  induction fuel as [|f IH]; intros s h A c n acc s' h' r HR; cbn [read_exact_f];
+    destruct (n =? 0) eqn:En.
+  1,3: intros [= <- <- <-]; assert (n = 0) as -> by lia;
+       (split; [lia|]); (split; [rewrite takeN_0, app_nil_r; reflexivity|]);
+       replace (c + 0) with c by lia; exact HR.
+  - intros [= <- <- <-]. lia.
+  - destruct HR as (Hid & V & HC & HI & HA & HP). cbn [fst snd] in HA, HP.
+    pose proof (h_read_refines s id V h n HC Hid HI) as HRd.
+    destruct (Mread h n s) as [s1 [h1 r1]]. unfold op_refines in HRd.
+    destruct HRd as (Hid1 & HRd).
+    destruct r1 as [bs|k|p|]; try contradiction.
+    + destruct HRd as (V1 & HC1 & HI1 & HA1 & HP1 & HB & HZ & HLe).
+      rewrite HA in HA1, HB, HZ. rewrite HP in HP1, HB, HZ.
+      assert (HR1 : rel id s1 h1 (A, c + lenN bs)).
+      { split; [exact Hid1|]. exists V1. repeat (split; [assumption|]). assumption. }
+      destruct (lenN bs =? 0) eqn:Eb.
+      * intros [= <- <- <-]. eexists. exact HR1.
+      * intro ER. specialize (IH s1 h1 A (c + lenN bs) (n - lenN bs) (acc ++ bs) s' h' r HR1 ER).
+        assert (HLb : lenN bs <= lenN A - c).
+        { rewrite HB. rewrite lenN_takeN, lenN_dropN. lia. }
+        assert (Hc : c <= lenN A).
+        { pose proof (len_is_abs_len V h HI). hfacts HI. unfold h_position in HP. rewrite HA in *. lia. }
+        destruct r as [out|k|p|]; try assumption.
+        -- destruct IH as (I1 & I2 & I3). split; [lia|]. split.
+           ++ rewrite I2, <- app_assoc. f_equal. rewrite HB at 1.
+              rewrite <- dropN_dropN. apply takeN_split. exact HLe.
+           ++ replace (c + n) with (c + lenN bs + (n - lenN bs)) by lia. exact I3.
+        -- lia.
+    + intros [= <- <- <-]. destruct HRd as (V1 & HC1 & HI1 & HA1 & HP1).
+      exists c. split; [exact Hid1|]. exists V1. repeat (split; [assumption|]).
+      cbn [fst snd]. split; congruence.
+Qed.
+
+(* read_to_end (chunked) returns the rest of the abstract vector *)
+Theorem read_to_end_refines id chunk fuel : 0 < chunk -> forall s h A c acc s' h' r,
+  rel id s h (A, c) -> Mread_to_end fuel chunk h acc s = (s', (h', r)) ->
+  match r with
+  | Ok bs => bs = acc ++ dropN c A /\ rel id s' h' (A, N.max c (lenN A))
+  | Err k => exists c', rel id s' h' (A, c')
+  | Panic _ => False
+  | OutOfFuel => (fuel <= N.to_nat (lenN A - c))%nat
+  end.
+Proof.
+  intro Hch. induction fuel as [|f IH]; intros s h A c acc s' h' r HR; cbn [read_to_end_f].
+  - intros [= <- <- <-]. lia.
+  - destruct HR as (Hid & V & HC & HI & HA & HP). cbn [fst snd] in HA, HP.
+    pose proof (h_read_refines s id V h chunk HC Hid HI) as HRd.
+    destruct (Mread h chunk s) as [s1 [h1 r1]]. unfold op_refines in HRd.
+    destruct HRd as (Hid1 & HRd).
+    destruct r1 as [bs|k|p|]; try contradiction.
+    + destruct HRd as (V1 & HC1 & HI1 & HA1 & HP1 & HB & HZ & HLe).
+      rewrite HA in HA1, HB, HZ. rewrite HP in HP1, HB, HZ.
+      assert (HR1 : rel id s1 h1 (A, c + lenN bs)).
+      { split; [exact Hid1|]. exists V1. repeat (split; [assumption|]). assumption. }
+      assert (Hc : c <= lenN A).
+      { pose proof (len_is_abs_len V h HI). hfacts HI. unfold h_position in HP. rewrite HA in *. lia. }
+      assert (HLb : lenN bs <= lenN A - c).
+      { rewrite HB. rewrite lenN_takeN, lenN_dropN. lia. }
+      destruct (lenN bs =? 0) eqn:Eb.
+      * intros [= <- <- <-]. assert (Hend : c = lenN A) by lia.
+        split.
+        -- rewrite dropN_all by lia. rewrite app_nil_r. reflexivity.
+        -- replace (N.max c (lenN A)) with (c + lenN bs) by lia. exact HR1.
+      * intro ER. specialize (IH s1 h1 A (c + lenN bs) (acc ++ bs) s' h' r HR1 ER).
+        destruct r as [out|k|p|]; try assumption.
+        -- destruct IH as (I2 & I3). split.
+           ++ rewrite I2, <- app_assoc. f_equal. rewrite HB at 1.
+              rewrite <- dropN_dropN. apply takeN_dropN_id.
+           ++ replace (N.max c (lenN A)) with (N.max (c + lenN bs) (lenN A)) by lia. exact I3.
+        -- lia.
+    + intros [= <- <- <-]. destruct HRd as (V1 & HC1 & HI1 & HA1 & HP1).
+      exists c. split; [exact Hid1|]. exists V1. repeat (split; [assumption|]).
+      cbn [fst snd]. split; congruence.
+Qed.
+
+Lemma spliceN_chunks (l : list byte) c k bs :
+  c <= lenN l -> k <= lenN bs ->
+  spliceN (spliceN l c (takeN k bs)) (c + k) (dropN k bs) = spliceN l c bs.
+Proof.
+  intros H1 H2.
+  assert (HK : lenN (takeN k bs) = k) by (rewrite lenN_takeN; lia).
+  rewrite <- HK at 2. rewrite spliceN_spliceN by lia. f_equal.
+  rewrite HK. list_ext.
+Qed.
+
+(* write_all writes the whole buffer at the cursor, or fails having written a
+   prefix of it; lenN bs units of fuel suffice (each round accepts >= 1 byte) *)
+Theorem write_all_refines id fuel : forall s h A c bs s' h' r,
+  rel id s h (A, c) -> Mwrite_all fuel h bs s = (s', (h', r)) ->
+  match r with
+  | Ok _ => rel id s' h' (spliceN A c bs, c + lenN bs)
+  | Err k => exists j, j <= lenN bs /\ rel id s' h' (spliceN A c (takeN j bs), c + j)
+  | Panic _ => False
+  | OutOfFuel => (fuel < N.to_nat (lenN bs))%nat
+  end.
+Proof.
+  induction fuel as [|f IH]; intros s h A c bs s' h' r HR.
+  - destruct bs as [|b bs]; cbn [write_all_f]; intros [= <- <- <-].
+    + destruct HR as (Hid & V & HC & HI & HA & HP). cbn [fst snd] in HA, HP.
+      assert (Hc : c <= lenN A).
+      { pose proof (len_is_abs_len V h HI). hfacts HI. unfold h_position in HP. rewrite HA in *. lia. }
+      rewrite spliceN_nil_r by lia. cbn [lenN]. replace (c + 0) with c by lia.
+      split; [exact Hid|]. exists V. repeat (split; [assumption|]). assumption.
+    + cbn [lenN]. lia.
+  - assert (HR0 := HR).
+    destruct HR as (Hid & V & HC & HI & HA & HP). cbn [fst snd] in HA, HP.
+    assert (Hc : c <= lenN A).
+    { pose proof (len_is_abs_len V h HI). hfacts HI. unfold h_position in HP. rewrite HA in *. lia. }
+    destruct bs as [|b bs0]; cbn [write_all_f].
+    + intros [= <- <- <-]. rewrite spliceN_nil_r by lia. cbn [lenN].
+      replace (c + 0) with c by lia. exact HR0.
+    + set (bs := b :: bs0) in *.
+      pose proof (h_write_refines s id V h bs HC Hid HI) as HW.
+      destruct (Mwrite h bs s) as [s1 [h1 r1]]. unfold op_refines in HW.
+      destruct HW as (Hid1 & HW).
+      destruct r1 as [k|e|p|]; try contradiction.
+      * destruct HW as (V1 & HC1 & HI1 & HZ & HLe & HA1 & HP1).
+        rewrite HA, HP in HA1. rewrite HP in HP1.
+        assert (HR1 : rel id s1 h1 (spliceN A c (takeN k bs), c + k)).
+        { split; [exact Hid1|]. exists V1. repeat (split; [assumption|]). assumption. }
+        destruct (k =? 0) eqn:Ek.
+        -- intros [= <- <- <-]. exists k. split; [exact HLe|exact HR1].
+        -- intro ER.
+           specialize (IH s1 h1 _ _ (dropN k bs) s' h' r HR1 ER).
+           destruct r as [u|e|p|]; try assumption.
+           ++ rewrite spliceN_chunks in IH by lia. rewrite lenN_dropN in IH.
+              replace (c + k + (lenN bs - k)) with (c + lenN bs) in IH by lia. exact IH.
+           ++ destruct IH as (j & Hj & IH). rewrite lenN_dropN in Hj.
+              exists (k + j). split; [lia|].
+              assert (E1 : takeN k (takeN (k + j) bs) = takeN k bs) by (rewrite takeN_takeN; f_equal; lia).
+              assert (E2 : dropN k (takeN (k + j) bs) = takeN j (dropN k bs))
+                by (rewrite dropN_takeN; f_equal; lia).
+              rewrite <- (spliceN_chunks A c k (takeN (k + j) bs)); [|lia|rewrite lenN_takeN; lia].
+              rewrite E1, E2. replace (c + (k + j)) with (c + k + j) by lia. exact IH.
+           ++ rewrite lenN_dropN in IH. lia.
+      * intros [= <- <- <-]. destruct HW as (V1 & HC1 & HI1 & HA1 & HP1).
+        exists 0. split; [lia|]. rewrite takeN_0, spliceN_nil_r by lia.
+        replace (c + 0) with c by lia.
+        split; [exact Hid1|]. exists V1. repeat (split; [assumption|]).
+        cbn [fst snd]. split; congruence.
+Qed.
+
+(* What the looping forms return, and the abstract state they leave, is a
+   function of the abstract state alone.  In particular two handles with
+   different maximum buffer sizes (and arbitrarily different buffer contents,
+   window offsets and dirty markers, even over different store states) that
+   represent the same (A, c) cannot be told apart. *)
+Theorem buffer_size_irrelevant_read_exact id1 id2 f1 f2 s1 s2 h1 h2 A c n s1' s2' h1' h2' bs1 bs2 :
+  rel id1 s1 h1 (A, c) -> rel id2 s2 h2 (A, c) ->
+  Mread_exact f1 h1 n [] s1 = (s1', (h1', Ok bs1)) ->
+  Mread_exact f2 h2 n [] s2 = (s2', (h2', Ok bs2)) ->
+  bs1 = bs2 /\ bs1 = takeN n (dropN c A) /\
+  rel id1 s1' h1' (A, c + n) /\ rel id2 s2' h2' (A, c + n).
+Proof.
+  intros R1 R2 E1 E2.
+  pose proof (read_exact_refines id1 f1 _ _ _ _ _ _ _ _ _ R1 E1) as (_ & B1 & Q1).
+  pose proof (read_exact_refines id2 f2 _ _ _ _ _ _ _ _ _ R2 E2) as (_ & B2 & Q2).
+  cbn [app] in B1, B2. split; [congruence|]. split; [exact B1|]. split; assumption.
+Qed.
+
+Theorem buffer_size_irrelevant_read_to_end id1 id2 k1 k2 f1 f2 s1 s2 h1 h2 A c s1' s2' h1' h2' bs1 bs2 :
+  0 < k1 -> 0 < k2 ->
+  rel id1 s1 h1 (A, c) -> rel id2 s2 h2 (A, c) ->
+  Mread_to_end f1 k1 h1 [] s1 = (s1', (h1', Ok bs1)) ->
+  Mread_to_end f2 k2 h2 [] s2 = (s2', (h2', Ok bs2)) ->
+  bs1 = bs2 /\ bs1 = dropN c A /\
+  rel id1 s1' h1' (A, N.max c (lenN A)) /\ rel id2 s2' h2' (A, N.max c (lenN A)).
+Proof.
+  intros K1 K2 R1 R2 E1 E2.
+  pose proof (read_to_end_refines id1 k1 f1 K1 _ _ _ _ _ _ _ _ R1 E1) as (B1 & Q1).
+  pose proof (read_to_end_refines id2 k2 f2 K2 _ _ _ _ _ _ _ _ R2 E2) as (B2 & Q2).
+  cbn [app] in B1, B2. split; [congruence|]. split; [exact B1|]. split; assumption.
+Qed.
+
+Theorem buffer_size_irrelevant_write_all id1 id2 f1 f2 s1 s2 h1 h2 A c bs s1' s2' h1' h2' :
+  rel id1 s1 h1 (A, c) -> rel id2 s2 h2 (A, c) ->
+  Mwrite_all f1 h1 bs s1 = (s1', (h1', Ok tt)) ->
+  Mwrite_all f2 h2 bs s2 = (s2', (h2', Ok tt)) ->
+  rel id1 s1' h1' (spliceN A c bs, c + lenN bs) /\
+  rel id2 s2' h2' (spliceN A c bs, c + lenN bs).
+Proof.
+  intros R1 R2 E1 E2.
+  pose proof (write_all_refines id1 f1 _ _ _ _ _ _ _ _ R1 E1) as Q1.
+  pose proof (write_all_refines id2 f2 _ _ _ _ _ _ _ _ R2 E2) as Q2.
+  split; assumption.
+Qed.
+
+End HandleRefinement.
+
+(* ========================================================================= *)
+(* 7. The store contract is satisfiable (the Section above is not vacuous)    *)
+(* ========================================================================= *)
+
+(* 7.1 a fault-free store: one stream, the state is its byte vector *)
+Module VecStore.
+Definition St := list byte.
+Definition rd (id off n : N) (s : St) : St * res (list byte) := (s, Ok (takeN n (dropN off s))).
+Definition wr (id off : N) (buf : list byte) (s : St) : St * res unit := (spliceN s off buf, Ok tt).
+Definition rs (id n : N) (s : St) : St * res unit := (takeN n s ++ repeatN 0 (n - lenN s), Ok tt).
+Definition sl (id : N) (s : St) : St * res N := (s, Ok (lenN s)).
+Definition content (s : St) (id : N) (V : list byte) : Prop := s = V.
+
+Example vec_store_contract : store_contract St rd wr rs sl content.
+Proof.
+  constructor.
+  - intros s id V ->. reflexivity.
+  - intros s id V off n -> Ho Hn. eexists _, _. split; [reflexivity|]. split; [reflexivity|].
+    left. rewrite <- (lenN_dropN off V), takeN_min_len. reflexivity.
+  - intros s id V off buf -> Ho. eexists _, _. split; [reflexivity|]. left. split; reflexivity.
+  - intros s id V n ->. eexists _, _. split; [reflexivity|]. left. split; reflexivity.
+Qed.
+
+Definition vec_trace_refines := handle_trace_refines St rd wr rs sl content vec_store_contract.
+End VecStore.
+
+(* 7.2 a faulty store: the state carries a schedule; entry None lets the next
+   access succeed, entry Some j makes it fail, a failing write being torn after
+   the first j bytes of the buffer *)
+Module FaultStore.
+Definition St := (list byte * list (option N))%type.
+Definition next (s : St) : option N * list (option N) :=
+  match snd s with [] => (None, []) | f :: t => (f, t) end.
+Definition rd (id off n : N) (s : St) : St * res (list byte) :=
+  let '(f, t) := next s in
+  match f with
+  | None => ((fst s, t), Ok (takeN n (dropN off (fst s))))
+  | Some _ => ((fst s, t), Err EOther)
+  end.
+Definition wr (id off : N) (buf : list byte) (s : St) : St * res unit :=
+  let '(f, t) := next s in
+  match f with
+  | None => ((spliceN (fst s) off buf, t), Ok tt)
+  | Some j => ((spliceN (fst s) off (takeN j buf), t), Err EOther)
+  end.
+Definition rs (id n : N) (s : St) : St * res unit :=
+  let '(f, t) := next s in
+  match f with
+  | None => ((takeN n (fst s) ++ repeatN 0 (n - lenN (fst s)), t), Ok tt)
+  | Some _ => ((fst s, t), Err EOther)
+  end.
+Definition sl (id : N) (s : St) : St * res N := (s, Ok (lenN (fst s))).
+Definition content (s : St) (id : N) (V : list byte) : Prop := fst s = V.
+
+Lemma torn_prefix (V : list byte) off W : off <= lenN V -> takeN off (spliceN V off W) = takeN off V.
+Proof. intro H. list_ext. Qed.
+
+Lemma torn_suffix (V : list byte) off buf j :
+  off <= lenN V ->
+  dropN (off + lenN buf) (spliceN V off (takeN j buf)) = dropN (off + lenN buf) V.
+Proof. intro H. list_ext. Qed.
+
+Example fault_store_contract : store_contract St rd wr rs sl content.
+Proof.
+  constructor.
+  - intros s id V <-. reflexivity.
+  - intros [v sch] id V off n HC Ho Hn. unfold content in *. cbn [fst] in HC. subst V.
+    unfold rd, next. cbn [fst snd].
+    destruct sch as [|[j|] t]; eexists _, _; (split; [reflexivity|]); (split; [reflexivity|]).
+    + left. rewrite <- (lenN_dropN off v), takeN_min_len. reflexivity.
+    + right. eexists. reflexivity.
+    + left. rewrite <- (lenN_dropN off v), takeN_min_len. reflexivity.
+  - intros [v sch] id V off buf HC Ho. unfold content in *. cbn [fst] in HC. subst V.
+    unfold wr, next. cbn [fst snd].
+    destruct sch as [|[j|] t]; eexists _, _; (split; [reflexivity|]).
+    + left. split; reflexivity.
+    + right. eexists _, _. split; [reflexivity|]. cbn [fst].
+      split; [reflexivity|]. split; [apply torn_prefix; exact Ho|apply torn_suffix; exact Ho].
+    + left. split; reflexivity.
+  - intros [v sch] id V n HC. unfold content in *. cbn [fst] in HC. subst V.
+    unfold rs, next. cbn [fst snd].
+    destruct sch as [|[j|] t]; eexists _, _; (split; [reflexivity|]).
+    + left. split; reflexivity.
+    + right. eexists. split; reflexivity.
+    + left. split; reflexivity.
+Qed.
+
+Definition fault_trace_refines := handle_trace_refines St rd wr rs sl content fault_store_contract.
+End FaultStore.
+
+(* 7.3 two concrete runs (evaluated): the observable outcomes are those of a
+   Vec + cursor; in the second the first write-back is torn after one byte and
+   the first refill fails, and neither is observable afterwards *)
+Definition demo_run {St} rd wr rs sl (s0 : St) (ops : list hop) : option (St * list hout) :=
+  match handle_new St sl 0 0 s0 with
+  | (s, Ok h) => let '(s', (_, outs)) := run_ops St rd wr rs sl h ops s in Some (s', outs)
+  | _ => None
+  end.
+
+Example vec_demo :
+  demo_run VecStore.rd VecStore.wr VecStore.rs VecStore.sl []
+    [HWrite [1;2;3]; HSeek WStart 1; HRead 5; HSetLen 5; HSeek WEnd (-5)%Z;
+     HRead 10; HFlush; HLen; HSeek WCur 7%Z]
+  = Some ([1;2;3;0;0],
+          [ONum 3; ONum 1; OBytes [2;3]; OUnit; ONum 0;
+           OBytes [1;2;3;0;0]; OUnit; ONum 5; OErr EInvalidInput]).
+Proof. vm_compute. reflexivity. Qed.
+
+Example fault_demo :
+  demo_run FaultStore.rd FaultStore.wr FaultStore.rs FaultStore.sl
+    ([9;9;9;9], [Some 1; None; Some 0; None])
+    [HSeek WStart 1; HWrite [1;2]; HFlush; HFlush; HSeek WStart 0; HRead 10; HRead 10]
+  = Some (([9;1;2;9], []),
+          [ONum 1; ONum 2; OErr EOther; OUnit; ONum 0; OErr EOther; OBytes [9;1;2;9]]).
+Proof. vm_compute. reflexivity. Qed.
+
+(* a failing resize inside set_len: length, cursor and content are what they were *)
+Example fault_demo_resize :
+  demo_run FaultStore.rd FaultStore.wr FaultStore.rs FaultStore.sl
+    ([1;2;3], [Some 0; None])
+    [HSeek WStart 2; HSetLen 1; HLen; HPos; HSetLen 1; HPos; HRead 5]
+  = Some (([1], []),
+          [ONum 2; OErr EOther; ONum 3; ONum 2; OUnit; ONum 1; OBytes []]).
+Proof. vm_compute. reflexivity. Qed.
+
+(* ========================================================================= *)
+(* 8. Assumptions                                                             *)
+(* ========================================================================= *)
+Print Assumptions hinv_new.
+Print Assumptions flush_changes_refines.
+Print Assumptions h_fill_buf_refines.
+Print Assumptions h_read_refines.
+Print Assumptions h_consume_refines.
+Print Assumptions h_write_refines.
+Print Assumptions h_seek_refines.
+Print Assumptions h_seek_invalid.
+Print Assumptions h_set_len_refines.
+Print Assumptions h_flush_refines.
+Print Assumptions flush_ok_durable.
+Print Assumptions len_is_abs_len.
+Print Assumptions h_read_progress.
+Print Assumptions h_write_progress.
+Print Assumptions handle_trace_refines.
+Print Assumptions read_exact_refines.
+Print Assumptions read_to_end_refines.
+Print Assumptions write_all_refines.
+Print Assumptions buffer_size_irrelevant_read_exact.
+Print Assumptions buffer_size_irrelevant_read_to_end.
+Print Assumptions buffer_size_irrelevant_write_all.
+Print Assumptions VecStore.vec_store_contract.
+Print Assumptions FaultStore.fault_store_contract.
